@@ -20,8 +20,27 @@ import os
 from common import Infra
 
 
+def replay(ctx, b):
+    """--replay PATH: re-execute the saved, TLC-judged case against the current tree and print the divergence."""
+    import sys
+    with open(ctx.replay) as fh:
+        obj = json.load(fh)
+    f = os.path.join(ctx.work, "replay_case.ndjson")
+    with open(f, "w") as fh:
+        fh.write(json.dumps(obj["replay"]["export"]) + "\n")
+    ctx.known = []
+    h = ctx.harness([b, "run", f])
+    for v in h["violations"]:
+        print("REPLAY diverges [%s]: %s" % (v["sig"], v["desc"][:1500]))
+    if not h["violations"]:
+        print("REPLAY: the saved case now agrees with the specification")
+    sys.exit(1 if h["violations"] else 0)
+
+
 def run(ctx):
     b = ctx.build("c02")
+    if ctx.replay:
+        replay(ctx, b)
     quick = ctx.tier == "quick"
     n = 3000 if quick else 40000
     cfile = os.path.join(ctx.work, "cases.ndjson")
@@ -55,8 +74,12 @@ def run(ctx):
                 e["exp"] = not e["exp"]
                 fh.write(json.dumps(e) + "\n")
         saved = (list(ctx.violations), list(ctx.known_hits))
+        rdir = os.path.join(ctx.work, "replay")
+        before = set(os.listdir(rdir))
         hc = ctx.harness([b, "run", ctlfile])
         ctx.violations, ctx.known_hits = saved
+        for f in set(os.listdir(rdir)) - before:      # the control's "violations" are not findings
+            os.remove(os.path.join(rdir, f))
         sigs = sorted(v["sig"] for v in hc["violations"])
         if not (any(x.startswith("accept-unauthorised:") for x in sigs) and any(x.startswith("reject-authorised:") for x in sigs)):
             raise Infra("negative control: flipped verdicts were not detected (%s)" % sigs)
